@@ -142,6 +142,13 @@ CLAIMS = {
     "C31": C("A lookup built from a frame merged on (id, step) must be keyed on both keys; no in-place write through "
              "a view of net.trafo; written values depend on tap_pos and id_characteristic_table of the same rows.",
              "key-collapse dependence analysis + alias/view analysis"),
+    "C33": C("Only the structure of the saturation of the DER controller's target is claimed: every masked assignment reads the "
+             "per-element vectors with its own mask; q is clamped with column 0 below and column 1 above of the area's "
+             "flexibility (the columns in_area compares with); apparent-power saturation selects p^2+q^2 > s^2 with "
+             "s = saturate_sn_mva/sn_mva, clips the prioritised quantity into +-s and derives the other as "
+             "sqrt(s^2 - clipped^2) afterwards; saturation follows the P/Q steps and precedes the sn_mva conversion; the targets "
+             "are written to the controller's own rows. Containment in run-time polygons and the damping are not decided.",
+             "ast mask-agreement / ordering / bound-pairing analysis"),
     "C34": C("Information-flow argument: 'was the argument passed' must be computed from information that differs "
              "between runpp(net) and runpp(net, algorithm='nr'); checks signature defaults, the passed-parameter "
              "test and overrule list agreement; the kwargs handed to the passed-parameter test are the caller's own; every "
@@ -155,5 +162,4 @@ NOT_APPLICABLE = {
     "C21": "round-trip equality of power-flow results through ppc/mpc is numerical; a column-coverage proxy would fire on legitimate converter scope changes (DESIGN.md section 5)",
     "C29": "monotonicity of trip time in current depends on run-time characteristic data and interpolation (DESIGN.md section 5)",
     "C32": "interpolation through support points is a property of scipy interpolators on run-time data (DESIGN.md section 5)",
-    "C33": "containment of (P,Q) in capability areas is geometric/numeric over run-time polygons and voltages (DESIGN.md section 5)",
 }
